@@ -331,7 +331,9 @@ func runHistory(hc histCase) {
 					}
 					if got == nil {
 						fail(sig+"-lost", fmt.Sprintf("auths entry %q disappeared after %s %q", a, o.Op, o.Addr))
-					} else if got.canon() != want {
+					} else if got.canon() != want && !touched[a] {
+						// (the on-disk form of an entry written by Put is not prescribed by the property: it is
+						// checked by the model correspondence and by the reload round trip below)
 						fail(sig+"-changed", fmt.Sprintf("auths entry %q after %s %q: want %s got %s", a, o.Op, o.Addr, want, got.canon()))
 					}
 				}
